@@ -347,6 +347,21 @@ def scenarios(rng):
       num_buckets=3, output_min=lo, kernel_initializer=K("initializers.Constant", value=hi),
       kernel_regularizer=K("regularizers.L1", l1=a2), default_input_value=7), shape=[1], cat=3, default=7)
 
+  # "zeros" scenarios: optional arguments set to a value that is falsy but not None (0, 0.0): a get_config /
+  # from_config written with a truthiness test (`v if v else None`) silently turns them into "not given"
+  add(C, "zeros", dict(num_buckets=3, default_input_value=0, output_min=0.0), shape=[1], cat=3, default=0)
+  add(C, "zeros_max", dict(num_buckets=3, units=2, output_max=0.0, default_input_value=0), shape=[2], cat=3, default=0)
+  add(P, "zeros", dict(input_keypoints=kp, output_min=0.0, impute_missing=True, missing_input_value=0.0,
+                       missing_output_value=0.0, num_projection_iterations=0),
+      shape=[1], rng=[kp[0] - 1, kp[-1] + 1], missing=0.0)
+  add(P, "zeros_max", dict(input_keypoints=kp, output_max=0.0, monotonicity=0, convexity=0),
+      shape=[1], rng=[kp[0] - 1, kp[-1] + 1])
+  add(L, "zeros", dict(lattice_sizes=[2, 2], output_min=0.0, monotonicities=[0, 0], num_projection_iterations=0,
+                       kernel_regularizer=T("laplacian", 0.0, 0.0)), shape=[2], rng=[0, 1])
+  add(L, "zeros_max", dict(lattice_sizes=[2, 2], output_min=-1.0, output_max=0.0), shape=[2], rng=[0, 1])
+  add(N, "zeros", dict(num_input_dims=2, monotonicities=[0, 0], input_min=[0.0, None], input_max=[None, 0.0]),
+      shape=[2], rng=[-2, 2])
+
   # ---------------- CDF
   D = "cdf_layer.CDF"
   add(D, "defaults", dict(num_keypoints=4), shape=[3], rng=[0, 1])
@@ -374,6 +389,8 @@ def scenarios(rng):
   # ---------------- RTL
   R = "rtl_layer.RTL"
   add(R, "defaults", dict(num_lattices=3, lattice_rank=2), rtl=dict(unconstrained=3, increasing=2), rng=[0, 1])
+  add(R, "zeros", dict(num_lattices=3, lattice_rank=2, output_min=0.0, random_seed=0),
+      rtl=dict(unconstrained=3, increasing=2), rng=[0, 1])
   add(R, "all_options", dict(
       num_lattices=4, lattice_rank=3, lattice_size=3, output_min=lo, output_max=hi, init_min=lo, init_max=hi,
       separate_outputs=True, random_seed=rng.randint(0, 1000), num_projection_iterations=4,
